@@ -50,7 +50,9 @@ Inductive gcond :=
 | CTruthy (e : gval)
 | CReMatch (e : gval)                 (* self._compiled_pattern.match(e) is a match *)
 | CMod (a b : gval)                   (* truthiness of a % b *)
-| CDivNotInt (a b : gval).            (* int(a / b) != a / b *)
+| CDivNotInt (a b : gval)             (* int(a / b) != a / b *)
+| CIsEnum (e : gval)                  (* isinstance(e, enum.Enum): e is a member of an enum class *)
+| CAnyIs (e ce : gval).               (* any(e is v for v in ce): identity with one of the elements of ce *)
 
 (* a validation chain, in continuation form: the statements after an `if` are in both branches *)
 Inductive gprog :=
@@ -71,6 +73,19 @@ Inductive outcome :=
 
 Definition name_of (v : pyval) : res pyval :=
   match v with PEnum _ n _ => Ok (PStr n) | _ => Raise AttributeError end.
+
+(* any(x is v for v in c): the identity of enum members only is known (one object per class and name; a value
+   of any other kind is never that object); whether two equal strs / ints are one object is not predicted *)
+Definition is_member_obj (x v : pyval) : res bool :=
+  match v with
+  | PEnum c n _ => Ok (match x with PEnum c' n' _ => pystr_eqb c' c && pystr_eqb n' n | _ => false end)
+  | _ => Raise Unmodelled
+  end.
+Definition any_is (x c : pyval) : res bool :=
+  match c with
+  | PList l | PTuple l => r <- mapM (is_member_obj x) l ;; Ok (existsb (fun b => b) r)
+  | _ => Raise Unmodelled
+  end.
 
 Definition two_1024 : Z := 2 ^ 1024.
 
@@ -191,6 +206,8 @@ Section Run.
                     end
     | CMod a b => x <- eval_val vals a ;; y <- eval_val vals b ;; py_mod x y
     | CDivNotInt a b => _ <- eval_val vals a ;; _ <- eval_val vals b ;; Raise Unmodelled
+    | CIsEnum e => v <- eval_val vals e ;; Ok (py_is_enum_member v)
+    | CAnyIs e ce => x <- eval_val vals e ;; c1 <- eval_val vals ce ;; any_is x c1
     end.
 
   Fixpoint run (vals : list pyval) (p : gprog) : outcome :=
@@ -477,7 +494,7 @@ Fixpoint refine (env : aenv) (c : gcond) (b : bool) : aenv :=
       if b then refine_on env e (absv_filter (may_be_const k))
       else refine_on env e (absv_filter (fun c => negb (is_const k c)))
   | CTruthy e => refine_on env e (absv_filter (if b then may_be_truthy else may_be_falsy))
-  | CCmp _ _ _ | CIn _ _ | CReMatch _ | CMod _ _ | CDivNotInt _ _ => env
+  | CCmp _ _ _ | CIn _ _ | CReMatch _ | CMod _ _ | CDivNotInt _ _ | CIsEnum _ | CAnyIs _ _ => env
   end.
 
 (* evaluating c cannot raise *)
@@ -485,7 +502,8 @@ Fixpoint csafe (env : aenv) (c : gcond) : bool :=
   bottom env ||
   match c with
   | CConst _ => true
-  | CIsInst e _ | CIs e _ | CTruthy e => vsafe env e
+  | CIsInst e _ | CIs e _ | CTruthy e | CIsEnum e => vsafe env e
+  | CAnyIs e ce => vsafe env e && vsafe env ce && all_of enum_seq (aty env ce)
   | CNot c1 => csafe env c1
   | CAnd x y => csafe env x && csafe (refine env x true) y
   | COr x y => csafe env x && csafe (refine env x false) y
